@@ -46,6 +46,18 @@ def run(replay=None):
                 p.qs.append((alg, workers, mf, maxerr, p.ncmd + 1))
                 p.emit(f"mesh {p.root} {alg} {workers} {f2h(mf)} {box} {f2h(maxerr)} {rng.randrange(1 << 30)}")
         progs.append(p)
+    # fine renders of flat-faced CSG: the octree collapses unevenly, so small leaves meet leaves several
+    # levels larger at corners / edges / faces (neighbour look-ups that climb more than two levels)
+    for k in range(10 if quick else 150):
+        p = meshgen.closed_solid(rng, f"f{k}", rotate=rng.random() < 0.5, sharp=True)
+        p.qs = []
+        for alg in ([1, 2, 0] if k % 2 == 0 else [1, 2]):
+            workers = rng.choice([1, 2, 3, 4, 8, 16])
+            mf = rng.choice([0.06, 0.045, 0.03] if alg else [0.08, 0.05])
+            maxerr = rng.choice([1e-8, 1e-8, 1e-3])
+            p.qs.append((alg, workers, mf, maxerr, p.ncmd + 1))
+            p.emit(f"mesh {p.root} {alg} {workers} {f2h(mf)} {box} {f2h(maxerr)} {rng.randrange(1 << 30)}")
+        progs.append(p)
     exe_h = os.path.join(common.BUILD, "cxx", "bin", "expr")
     hout, hskip = common.run_cases_sharded(exe_h, [p.text() for p in progs], shards=8, timeout=1800, single_timeout=600)
     for t in hskip:
